@@ -89,6 +89,10 @@ pub struct OpSpec {
     pub size: usize,
     /// share the descriptor of an earlier op of the same kind
     pub share: Option<usize>,
+    /// ... through a `dup` of it: another descriptor number (its own queue in the polling
+    /// driver, its own registration) for the same pipe / socket, so that one arrival of
+    /// data makes both ready and the loser finds nothing (spurious readiness)
+    pub dup: bool,
 }
 
 #[derive(Debug, Clone, PartialEq, Eq)]
@@ -121,7 +125,7 @@ impl Program {
     pub fn to_json(&self) -> Value {
         json!({
             "driver": self.driver, "cap": self.cap, "pool_limit": self.pool_limit,
-            "ops": self.ops.iter().map(|o| json!({"kind": o.kind.name(), "size": o.size, "share": o.share})).collect::<Vec<_>>(),
+            "ops": self.ops.iter().map(|o| json!({"kind": o.kind.name(), "size": o.size, "share": o.share, "dup": o.dup})).collect::<Vec<_>>(),
             "acts": self.acts.iter().map(|a| match a {
                 Act::Push(i) => json!(["push", i]),
                 Act::Ready(i, n) => json!(["ready", i, n]),
@@ -146,6 +150,7 @@ impl Program {
                     kind: K::from_name(o["kind"].as_str()?)?,
                     size: o["size"].as_u64()? as usize,
                     share: o["share"].as_u64().map(|x| x as usize),
+                    dup: o["dup"].as_bool().unwrap_or(false),
                 })
             })
             .collect::<Option<Vec<_>>>()?;
@@ -208,7 +213,8 @@ pub fn generate(rng: &mut Rng, focus: Focus, driver: &'static str, kinds: &[K]) 
         } else {
             None
         };
-        ops.push(OpSpec { kind, size, share });
+        let dup = share.is_some() && rng.chance(1, 2);
+        ops.push(OpSpec { kind, size, share, dup });
     }
     // schedule: every op gets a Push, then a random soup of actions
     let mut acts = Vec::new();
@@ -327,6 +333,8 @@ struct Group {
     salt: u64,
     listener_addr: Option<std::net::SocketAddr>,
     clients: Vec<TcpStream>,
+    /// further descriptors (`dup`) of our end, with their probe ids
+    dups: Vec<(Fd, u64)>,
 }
 
 struct OpRt {
@@ -433,7 +441,7 @@ impl<'a> Exec<'a> {
         format!("{}/{}", self.p.driver, self.ops[i].spec.kind.name())
     }
 
-    fn new_group(&mut self, kind: K, salt: u64) -> io::Result<usize> {
+    fn new_group(&mut self, kind: K, salt: u64, size: usize) -> io::Result<usize> {
         let poll = self.dt == DriverType::Poll;
         let (ours, peer, addr): (OwnedFd, Option<OwnedFd>, Option<std::net::SocketAddr>) = match kind {
             K::PipeRead | K::PollOnce => {
@@ -457,6 +465,12 @@ impl<'a> Exec<'a> {
             K::SockRecv | K::RecvMulti => {
                 let (a, b) = mk_socketpair(libc::SOCK_STREAM);
                 (a, Some(b), None)
+            }
+            K::SendZc if size == 2 || size == 7 => {
+                // a stream socket that was never connected: the send fails at issue time (EPIPE),
+                // and the kernel still posts the result *and* the buffer-release notification
+                let s = socket2::Socket::new(socket2::Domain::IPV4, socket2::Type::STREAM, None)?;
+                (OwnedFd::from(s), None, None)
             }
             K::SendZc => {
                 let l = TcpListener::bind("127.0.0.1:0")?;
@@ -499,6 +513,7 @@ impl<'a> Exec<'a> {
             salt,
             listener_addr: addr,
             clients: Vec::new(),
+            dups: Vec::new(),
         });
         Ok(self.groups.len() - 1)
     }
@@ -510,7 +525,7 @@ impl<'a> Exec<'a> {
         let spec = self.ops[i].spec.clone();
         let group = match spec.share.filter(|j| self.ops[*j].st != St::NotPushed && self.ops[*j].spec.kind == spec.kind) {
             Some(j) => self.ops[j].group,
-            None => match self.new_group(spec.kind, 0x5000 + i as u64) {
+            None => match self.new_group(spec.kind, 0x5000 + i as u64, spec.size) {
                 Ok(g) => g,
                 Err(e) => {
                     self.ops[i].st = St::Skipped;
@@ -521,8 +536,19 @@ impl<'a> Exec<'a> {
             },
         };
         self.ops[i].group = group;
-        let fd = self.groups[group].ours.clone();
-        let fd_id = self.groups[group].fd_id;
+        let mut fd = self.groups[group].ours.clone();
+        let mut fd_id = self.groups[group].fd_id;
+        if spec.dup && spec.share.is_some() {
+            let raw = unsafe { libc::dup(fd.as_raw_fd()) };
+            if raw >= 0 {
+                use std::os::fd::FromRawFd;
+                let probe = ProbeFd::new(unsafe { OwnedFd::from_raw_fd(raw) });
+                fd_id = probe.id;
+                fd = SharedFd::new(probe);
+                self.groups[group].dups.push((fd.clone(), fd_id));
+                *self.counts.entry("dup_descriptors").or_insert(0) += 1;
+            }
+        }
         if spec.kind != K::Asyncify {
             // (a gated pool job does not touch the descriptor of its dummy group)
             verif::emit_user(ev::OP_USES_FD, i as u64, fd_id as i64);
@@ -1008,10 +1034,29 @@ pub fn run_program(p: &Program, prop: &str, canary: bool, log: bool) -> Outcome 
         };
         // with several ops sharing the descriptor the data may legitimately have gone to a sibling
         let shared = ex.ops.iter().enumerate().any(|(j, o)| j != i && o.group == g && o.st != St::NotPushed && o.spec.kind == k);
+        // ... but data that is *still there* after one more bounded series of polls, with a
+        // read still pending on that very pipe / socket, went to nobody
+        let mut stranded_shared = false;
+        if confirmed && shared && matches!(k, K::PipeRead | K::SockRecv) && ex.ops[i].st == St::Pending {
+            let sibs: Vec<usize> = (0..ex.ops.len()).filter(|j| ex.ops[*j].group == g && ex.ops[*j].st == St::Pending).collect();
+            for r in 0..(4 + sibs.len()) {
+                ex.poll([5u64, 20, 50, 100][r.min(3)]);
+                for j in &sibs {
+                    ex.pop(*j);
+                }
+            }
+            if ex.ops[i].st != St::Pending {
+                continue;
+            }
+            stranded_shared = poll_ready(ex.groups[g].ours.as_raw_fd(), libc::POLLIN);
+        }
         let c = ex.ctx(i);
         if ex.ops[i].cancel_requested && ex.ops[i].spec.kind.cancellable() {
             vio(&mut ex.viol, prop, "cancel-not-prompt", &c,
                 format!("op {i} was cancelled but had no outcome after {} polls", ex.ops[i].cancel_seq_polls));
+        } else if stranded_shared {
+            vio(&mut ex.viol, prop, "ready-but-undelivered", &format!("{c}/shared{}", if ex.ops[i].spec.dup { "-dup" } else { "" }),
+                format!("op {i} reads a descriptor that several operations share: after one driver poll per pending operation plus four, and as many again,                          data is still unread in it (poll(2)) yet the read is still pending"));
         } else if confirmed && !shared {
             vio(&mut ex.viol, prop, "ready-but-undelivered", &c,
                 format!("op {i}: what it waits for is ready (confirmed with poll(2)) but one driver poll per pending operation plus four produced no result"));
@@ -1052,7 +1097,7 @@ pub fn run_program(p: &Program, prop: &str, canary: bool, log: bool) -> Outcome 
     // until every pool job has ended, the log is silent and every operation created
     // by this program has been released — a release on a pool thread may lag.
     let groups = std::mem::take(&mut ex.groups);
-    let fd_ids: Vec<u64> = groups.iter().map(|g| g.fd_id).collect();
+    let fd_ids: Vec<u64> = groups.iter().flat_map(|g| std::iter::once(g.fd_id).chain(g.dups.iter().map(|d| d.1))).collect();
     drop(groups);
     for o in ex.ops.iter_mut() {
         o.accepted.clear();
